@@ -20,7 +20,7 @@ RULE = ("Data-first LPs as in C05 (feasible-bounded / infeasible / open cost dir
         "1e-7(1+|obj_ref|).  Non-trivial = >= 2 variables, >= 1 general row and a vector/matrix form or a "
         "non-zero constant in the rendering."
         '  Also: a third round after the two solves: orientation flipped with the same objective object, or a redundant row added (forces re-extraction from the same expression objects).')
-BUDGET = {"quick": {"workers": 16, "examples": 150}, "thorough": {"workers": 16, "examples": 6000}}
+BUDGET = {"quick": {"workers": 16, "examples": 350}, "thorough": {"workers": 16, "examples": 6000}}
 ASSUMPTIONS = ["HiGHS is deterministic: identical arrays give identical verdicts, so a differing verdict means different data was passed"]
 MANIFEST = {
  "technique": "property-based testing (Hypothesis): differential against scipy.optimize.linprog on an independently assembled matrix form of the drawn model",
